@@ -1,4 +1,4 @@
-// Counterexample found by mirsym/z3 for property C19: timesz(N,x,y) ; timesz(N,y,N) answer leaves factor 1 of constraint 0 unbound although it is determined (or impossible) e.g. timesz(0, x, y), timesz(-2, y, -4)
+// Counterexample found by mirsym/z3 for property C19: timesz(N,x,y) ; timesz(N,y,N) answer leaves factor 1 of constraint 0 unbound although it is determined (or impossible) e.g. timesz(-4, x, y), timesz(-1, y, -2)
 // Replay: /verif/check C19 --replay /verif/replay/cases/C19-S3_timesz_timesz_timesz_N_x_y_timesz_N_y_N_determined_operand_unbound_c0_pos_1.rs   (runs this program natively against /repo)
 use proto_vulcan::prelude::*;
 #[allow(unused_imports)]
@@ -11,8 +11,8 @@ fn replay() {
     let query = proto_vulcan_query!(|q| {
         |x, y| {
             q == [x, y],
-            timesz(0, x, y),
-            timesz(-2, y, -4)
+            timesz(-4, x, y),
+            timesz(-1, y, -2)
         }
     });
     let expected: isize = -2; // -1: any number of answers, but no panic; -2: no unbound variable in any answer
